@@ -207,6 +207,9 @@ pub fn campaign(ctx: &crate::core::Ctx, report: &mut crate::core::Report, target
         .unwrap_or(0);
     let corpus_n = std::fs::read_dir(&work).map(|d| d.count()).unwrap_or(0);
     report.evaluations += runs;
+    // coverage-guided executions carry no class labels: the relative generator-health gates
+    // are taken over the labelled (generated) cases only
+    *report.measures.entry("fuzz_executions_unlabelled".into()).or_default() += runs as i64;
     if let Ok(rd) = std::fs::read_dir(&work) {
         for (i, e) in rd.flatten().enumerate() {
             if let Ok(b) = std::fs::read(e.path()) {
